@@ -524,6 +524,129 @@ func (eng *Engine) shapeObligations(tag string) []*Obligation {
 	return out
 }
 
+// flagObligations: the `flags` declarations. Every call
+// (*pflag.FlagSet).XxxVar(ptr, name, default, usage) in the named constructor
+// is read off the SSA: ptr as a field path from the command object (or a
+// package-level variable), default as a constant or as the call that computes
+// it. A declared flag must be registered exactly once with the declared path
+// (and default, when one is declared).
+func (eng *Engine) flagObligations(tag string) []*Obligation {
+	var out []*Obligation
+	for _, fd := range eng.specs.Flags {
+		if tag != "" && !hasTag(fd.Tags, tag) {
+			continue
+		}
+		fn := eng.funcs[fd.Func]
+		type reg struct{ path, def string }
+		regs := map[string][]reg{}
+		if fn != nil {
+			for _, b := range fn.Blocks {
+				for _, in := range b.Instrs {
+					c, ok := in.(*ssa.Call)
+					if !ok {
+						continue
+					}
+					sc := c.Call.StaticCallee()
+					if sc == nil || !strings.Contains(sc.String(), "pflag.FlagSet).") || !strings.HasSuffix(sc.Name(), "Var") || len(c.Call.Args) < 4 {
+						continue
+					}
+					name := "?"
+					if k, ok := c.Call.Args[2].(*ssa.Const); ok && k.Value != nil {
+						name = strings.Trim(k.Value.ExactString(), "\"")
+					}
+					regs[name] = append(regs[name], reg{flagPath(c.Call.Args[1]), flagDefault(c.Call.Args[3])})
+				}
+			}
+		}
+		for _, b := range fd.Bindings {
+			gname := "flags/" + fd.Func + "/--" + b.Name
+			o := &Obligation{Name: gname, Group: gname, Kind: "shape", Func: "flags", Tags: fd.Tags, Pos: "-", Solver: "go/ssa", Status: "unsat",
+				Text: "flag --" + b.Name + " of " + fd.Func + " is bound to " + b.Path}
+			rs := regs[b.Name]
+			switch {
+			case fn == nil:
+				o.Status, o.Text = "sat", o.Text+": no such function"
+			case len(rs) == 0:
+				o.Status, o.Text = "sat", o.Text+": the flag is not registered"
+			case len(rs) > 1:
+				o.Status, o.Text = "sat", o.Text+": the flag is registered more than once"
+			case rs[0].path != b.Path:
+				o.Status, o.Text = "sat", o.Text+": it is bound to "+rs[0].path
+			case b.Default != "" && strings.ReplaceAll(rs[0].def, " ", "") != strings.ReplaceAll(b.Default, " ", ""):
+				o.Status, o.Text = "sat", o.Text+" with default "+b.Default+": the default is "+rs[0].def
+			}
+			out = append(out, o)
+		}
+		// two flags bound to the same variable (one silently overrides the other)
+		byPath := map[string][]string{}
+		for n, rs := range regs {
+			for _, r := range rs {
+				byPath[r.path] = append(byPath[r.path], n)
+			}
+		}
+		gname := "flags/" + fd.Func + "/distinct-variables"
+		o := &Obligation{Name: gname, Group: gname, Kind: "shape", Func: "flags", Tags: fd.Tags, Pos: "-", Solver: "go/ssa", Status: "unsat", Text: "no two flags of " + fd.Func + " are bound to the same variable"}
+		var dup []string
+		for p, ns := range byPath {
+			if len(ns) > 1 && p != "?" {
+				sort.Strings(ns)
+				dup = append(dup, p+" <- "+strings.Join(ns, ","))
+			}
+		}
+		if len(dup) > 0 {
+			sort.Strings(dup)
+			o.Status, o.Text = "sat", o.Text+": "+strings.Join(dup, "; ")
+		}
+		out = append(out, o)
+	}
+	return out
+}
+
+// flagPath renders a pointer operand as a field path: FieldAddr chains rooted
+// at a local object give "a.b.c", rooted at a package variable "pkg.var.a".
+func flagPath(v ssa.Value) string {
+	var parts []string
+	for {
+		switch x := v.(type) {
+		case *ssa.FieldAddr:
+			st := x.X.Type().Underlying().(*types.Pointer).Elem().Underlying().(*types.Struct)
+			parts = append([]string{st.Field(x.Field).Name()}, parts...)
+			v = x.X
+			continue
+		case *ssa.Global:
+			return x.Pkg.Pkg.Name() + "." + x.Name() + "." + strings.Join(parts, ".")
+		case *ssa.Alloc, *ssa.UnOp, *ssa.Parameter, *ssa.FreeVar:
+			return strings.Join(parts, ".")
+		}
+		return "?"
+	}
+}
+
+func flagDefault(v ssa.Value) string {
+	switch x := v.(type) {
+	case *ssa.Const:
+		if x.Value == nil {
+			return "nil"
+		}
+		return x.Value.ExactString()
+	case *ssa.Call:
+		if sc := x.Call.StaticCallee(); sc != nil {
+			var as []string
+			for _, a := range x.Call.Args {
+				as = append(as, flagDefault(a))
+			}
+			return sc.Name() + "(" + strings.Join(as, ",") + ")"
+		}
+	case *ssa.Slice:
+		return "[]"
+	case *ssa.ChangeType:
+		return flagDefault(x.X)
+	case *ssa.Convert:
+		return flagDefault(x.X)
+	}
+	return "?"
+}
+
 func reflectTag(tag, key string) string {
 	v, _ := reflect.StructTag(tag).Lookup(key)
 	return v
